@@ -221,6 +221,9 @@ func ReleaseProgram(prog *ssa.Program) {
 	atomAliasMu.Lock()
 	delete(atomAlias, prog)
 	atomAliasMu.Unlock()
+	storeFuncsMu.Lock()
+	delete(storeFuncsByProg, prog)
+	storeFuncsMu.Unlock()
 }
 
 type aliasT struct {
@@ -661,7 +664,13 @@ func fieldsInStep(typ *types.Named, f1, f2 string) bool {
 		return v
 	}
 	res, any := true, false
-	for _, fn := range globalStoreFuncs {
+	storeFuncsMu.Lock()
+	var all []*ssa.Function
+	for _, fs := range storeFuncsByProg {
+		all = append(all, fs...)
+	}
+	storeFuncsMu.Unlock()
+	for _, fn := range all {
 		n1, n2 := 0, 0
 		for _, b := range fn.Blocks {
 			for _, in := range b.Instrs {
@@ -749,6 +758,22 @@ func mustPass(g *paths.Graph, from []paths.Node, m func(paths.Node) bool, as Ass
 // error variable.
 var globalStoreFuncs []*ssa.Function
 
+// storeFuncsByProg: the same list per loaded program (the variants of the thorough tier are analysed several at a time, each
+// with its own program); provablyNonNilError and noWaitOnNilChannels look their program up here.
+var (
+	storeFuncsMu     sync.Mutex
+	storeFuncsByProg = map[*ssa.Program][]*ssa.Function{}
+)
+
+func storeFuncsOf(prog *ssa.Program) []*ssa.Function {
+	storeFuncsMu.Lock()
+	defer storeFuncsMu.Unlock()
+	if fs, ok := storeFuncsByProg[prog]; ok {
+		return fs
+	}
+	return globalStoreFuncs
+}
+
 // failingReturn: n is a return of the root function whose last result is an error that is provably not nil.
 func failingReturn(n paths.Node) bool {
 	if n.F == nil || n.F.Parent != nil {
@@ -803,7 +828,7 @@ func provablyNonNilError(v ssa.Value, depth int) bool {
 			return false
 		}
 		n := 0
-		for _, f := range globalStoreFuncs {
+		for _, f := range storeFuncsOf(g.Pkg.Prog) {
 			for _, b := range f.Blocks {
 				for _, in := range b.Instrs {
 					if st, ok := in.(*ssa.Store); ok && st.Addr == ssa.Value(g) {
